@@ -342,6 +342,8 @@ def build_app(plan, asgi, record, pause=None):
         resp.content_type = 'application/json'
         resp.text = json.dumps({'route': ridx, 'obs': obs}, sort_keys=True)
         resp.set_header('X-Route', str(ridx))
+        resp.set_cookie('seen', str(obs['tag']), path='/')
+        resp.append_header('X-Trail', str(obs['tag']))
 
     app.router_options.converters['flaky'] = Flaky
     for ridx in plan['routes']:
